@@ -399,3 +399,93 @@ def r_term(P, R):
             f'{n} terminal shortcut(s), each keeps the sign',
             nontrivial=False)
 r_term.NAME = 'R-TERM'
+
+
+def r_lossy(P, R):
+    """Comparisons and keys that lose information a reference carries."""
+    n_cmp = n_comp = n_is = 0
+    for f in sorted(P.all_funcs(MODS), key=lambda f: f.qualname):
+        if not in_scope(P, R, f):
+            continue
+        for n in au.walk_no_defs(f.node):
+            if isinstance(n, ast.Compare):
+                n_cmp += 1
+                sides = [n.left] + list(n.comparators)
+                if any(isinstance(op, (ast.Eq, ast.NotEq))
+                       for op in n.ops) and any(
+                           isinstance(s, ast.Call) and au.call_name(
+                               s) == 'hash' for s in sides):
+                    R.violation(
+                        'R-LOSSY', 'hash-equality', f.qualname,
+                        au.short(n, 40),
+                        f'`{au.short(n, 60)}` decides equality by '
+                        'comparing hashes: equal hashes do not imply '
+                        'equal values (hash(-1) == hash(-2) in CPython, '
+                        'so FALSE equals the node -2)', unit=f.unit.rel,
+                        line=n.lineno)
+                for op, c in zip(n.ops, n.comparators):
+                    if isinstance(op, (ast.Is, ast.IsNot)) and isinstance(
+                            c, ast.Constant) and isinstance(c.value, bool):
+                        n_is += 1
+                        R.violation(
+                            'R-LOSSY', 'identity-with-bool', f.qualname,
+                            au.short(n, 40),
+                            f'`{au.short(n, 60)}` tests a flag by identity '
+                            'with a Boolean constant: every other flag of '
+                            'the package is tested by truthiness, so a '
+                            'truthy value that is not the object `True` '
+                            'now counts as false', unit=f.unit.rel,
+                            line=n.lineno)
+            if isinstance(n, (ast.DictComp, ast.SetComp)):
+                n_comp += 1
+                key = n.key if isinstance(n, ast.DictComp) else n.elt
+                inner = au.is_abs_of(key)
+                loopvars = set()
+                for g in n.generators:
+                    loopvars |= {x.id for x in ast.walk(g.target)
+                                 if isinstance(x, ast.Name)}
+                if inner and inner in loopvars and isinstance(
+                        n, ast.DictComp) and any(
+                            au.is_name(x, inner)
+                            for x in ast.walk(n.value)):
+                    R.violation(
+                        'R-LOSSY', 'abs-keyed-collapse', f.qualname,
+                        au.short(n, 40),
+                        f'`{au.short(n, 70)}` files signed references '
+                        f'under `abs({inner})`: a function and its '
+                        'negation (u and -u) collide and one of them is '
+                        'dropped', unit=f.unit.rel, line=n.lineno)
+    R.holds('R-LOSSY', f'functions behind {R.prop}',
+            f'{n_cmp} comparison(s): none compares hashes or tests '
+            f'identity with True/False; {n_comp} comprehension(s): none '
+            'keyed by abs() of a signed reference it keeps',
+            nontrivial=False)
+r_lossy.NAME = 'R-LOSSY'
+
+
+def r_shared(P, R):
+    """Two managers never share one mutable table."""
+    n = 0
+    for f in sorted(P.all_funcs(MODS), key=lambda f: f.qualname):
+        if not in_scope(P, R, f):
+            continue
+        for s in au.walk_no_defs(f.node):
+            if not isinstance(s, ast.Assign) or len(s.targets) != 1:
+                continue
+            t = au.chain(s.targets[0])
+            v = au.chain(s.value)
+            if not t or len(t) < 2 or t[-1] not in TABLES:
+                continue
+            n += 1
+            if v and len(v) >= 2 and v[-1] in TABLES and v[:-1] != t[:-1]:
+                R.violation(
+                    'R-ALIAS', 'shared-table', f.qualname,
+                    f'{".".join(t)}',
+                    f'`{au.short(s, 60)}` makes two managers share one '
+                    f'`{v[-1]}` table: a node added to, or collected '
+                    'from, one of them changes the other',
+                    unit=f.unit.rel, line=s.lineno)
+    R.holds('R-ALIAS', f'table assignments behind {R.prop}',
+            f'{n} assignment(s) to a table attribute, none from the '
+            'table of another manager', nontrivial=False)
+r_shared.NAME = 'R-ALIAS-SHARED'
